@@ -341,9 +341,11 @@ def run(rep):
                 if t['k'] == 'switch' and op_local(t['discr']) is not None:
                     neg, calls, places = chain_of(B, op_local(t['discr']))
                     names = [cname(c) for c in calls]
+                    OKOR = ('Option::<T>::ok_or', 'Option::<T>::ok_or_else')     # `.take().ok_or(e)?`: None becomes Err - as infeasible as the None itself
+                    core = [n_ for n_ in names[1:] if not n_.endswith(OKOR)]
                     if names and names[0].endswith('::branch') and any(n_.endswith(('Option::<T>::take', 'Option::<T>::as_mut', 'Option::<T>::as_ref')) for n_ in names) and \
-                            len(names) > 1 and names[1].endswith(('Option::<T>::take', 'Option::<T>::as_mut', 'Option::<T>::as_ref')) and \
-                            all(n_.endswith(('::branch', 'Option::<T>::take', 'Option::<T>::as_mut', 'Option::<T>::as_ref', 'Result::<T, E>::ok', 'Command::spawn')) for n_ in names) and \
+                            core and core[0].endswith(('Option::<T>::take', 'Option::<T>::as_mut', 'Option::<T>::as_ref')) and \
+                            all(n_.endswith(('::branch', 'Option::<T>::take', 'Option::<T>::as_mut', 'Option::<T>::as_ref', 'Result::<T, E>::ok', 'Command::spawn') + OKOR) for n_ in names) and \
                             any('.stdin' in p_[1] for p_ in places if p_):
                         for v, tgt in t['targets']:
                             if v == 1:
